@@ -497,6 +497,9 @@ func (fr *Frame) store(x *ssa.Store, st *State) {
 		return
 	}
 	lv := fx.pointee(pv, elem)
+	if fr.top && fx.contract != nil && strings.HasPrefix(lv.Key, "F.") {
+		fr.ghostAnchors("store:"+lv.Key, st)
+	}
 	if fr.top && fx.contract != nil && len(fx.contract.Asserts) > 0 && strings.HasPrefix(lv.Key, "F.") {
 		var ownerTy types.Type
 		if fa, ok := x.Addr.(*ssa.FieldAddr); ok {
